@@ -126,6 +126,11 @@ def random_scenario(rng: random.Random, nsims=(2, 4), nconns=(1, 5), until=(2, 4
         # the scripted simulators also issue the information requests get_progress / get_related_entities during their steps
         # (clauses IR_* of MosaikRef; see drive._info_calls)
         scn["info_requests"] = rng.randint(1, 10**6)
+    # initial events at LATER times, possibly several for one simulator: World.set_initial_event(sid, t) announces a step at t - next to
+    # the step at 0 that a hybrid simulator (or an event-based one with an initial event at 0) performs anyway, and next to each other
+    for x in scn["sims"]:
+        if x["type"] != "time-based" and rng.random() < 0.15:
+            x["initevs"] = sorted({rng.randint(0, scn["until"] + 1) for _ in range(rng.randint(1, 2))}, reverse=rng.random() < 0.5)
     return scn
 
 
